@@ -7,6 +7,8 @@ def run(tier):
     chk.assumptions = ["abstract bundles come from Valid.tla's families (flag combinations, block subsets incl. all eight registered types and an "
                        "unknown one, CRC choices, integer widths at every CBOR boundary, payload lengths around 23/24 and 255/256, endpoint forms); "
                        "payloads of 65535..1 MiB+1 bytes are run-length cases built by the harness",
+                       "map-valued blocks (PRoPHET, DTLSR) with 0..3 entries and CRC none/16/32 on the block; the serialiser picks the entry "
+                       "order anew each time, so these round trips are repeated 24 times each",
                        "the harness maps an abstract bundle to API calls (trusted); the specification's own encoding of the same abstract bundle "
                        "(independent encoder incl. both CRCs) is parsed as an input not produced by the serialiser",
                        "byte equality between the specification's encoding and the real one is diagnostic only (reported as format_drift)",
@@ -16,7 +18,7 @@ def run(tier):
                        "(map-valued blocks as maps), re-serialised (byte-identical), serialised twice (deterministic); the specification's "
                        "encoding is parsed and must give the same value, and every accepted input must re-serialise to an accepted encoding "
                        "with the same ID, blocks and payload-last. distinct = distinct abstract bundles.")
-    fams = ["flags", "blocks", "crc", "widths", "payload", "eids", "mut1"] + (["mut2"] if tier == "thorough" else [])
+    fams = ["flags", "blocks", "crc", "widths", "payload", "eids", "maps", "mut1"] + (["mut2"] if tier == "thorough" else [])
     cases = generate(chk, fams)
     inp = write_input("c01.ndjson", cases)
     st = run_harness(chk, "round trip", "pkg/bpv7", FILES, "TestVerifC01", env={"VERIF_IN": inp, "VERIF_PAR": 16}, timeout=1500, crash_key="codec/crash")
